@@ -80,14 +80,14 @@ def _f(op, a, b):
     return (op, X, Y, a, b) if op in ('since_t', 'until_t', 'unless_t') else (op, X, a, b)
 
 
-def h_spell(op, a, b, itext, unit, period, consts, mode, N):
+def h_spell(op, a, b, itext, unit, period, consts, mode, N, decl=''):
     f = _f(op, a, b)
     vs = sorted(variables(f))
     h = hor(f)
 
     def body(env):
         A = env.A
-        txt = 'out = ' + OPS[op] % itext
+        txt = decl + 'out = ' + OPS[op] % itext          # decl: constants declared in the TEXT ('const float T = 0.3')
         kind = 'offline' if mode == 'offline' else 'combined'      # 'combined-offline': evaluate() of the class that has both monitors
         s = dt.make_spec(kind, txt, vs, pastify=(mode == 'pastified'), unit=unit, period=tuple(period) + (0.1,),
                          consts=[tuple(c) for c in consts])
@@ -492,6 +492,18 @@ def obligations(tier, rng):
                     n = 2 if op in ('since_t', 'until_t') else 3
                     out.append(ob('C08', 'dense', 'ct/%s/%s[%d,%d]/%s %s' % (mode, op, a, b, name, itext), op=op, a=a, b=b, itext=itext,
                                   unit=unit, scale=scale, mode=mode, n=n, max_paths=20000, wall=600))
+    # constants declared in the text of the specification, with values that have no finite binary expansion (0.1, 0.3, 0.7 s under a 100 ms period)
+    for op in (['once_t', 'eventually_t', 'since_t'] if quick else list(OPS)):
+        for (va, vb), (a, b) in [(('0.1', '0.3'), (1, 3)), (('0', '0.7'), (0, 7)), (('0.3', '0.3'), (3, 3)), (('0.1', '0.2'), (1, 2))]:
+            for ty in ('float', 'double'):
+                decl = 'const %s ba = %s\nconst %s bb = %s\n' % (ty, va, ty, vb)
+                for itext, unit in [('[ba,bb]', None), ('[ba s,bb s]', 'ms'), ('[ba,bb s]', None)]:
+                    modes = ['offline'] + (['online'] if op in ('once_t', 'historically_t', 'since_t') else []) + ['pastified']
+                    for mode in modes:
+                        if quick and (ty == 'double' or (mode == 'pastified' and (a, b) != (1, 3))):
+                            continue
+                        out.append(ob('C08', 'spell', 'dt/%s/P=100ms/%s[%d,%d]/text-const %s %s=%s,%s unit=%s' % (mode, op, a, b, itext, ty, va, vb, unit), op=op, a=a, b=b, itext=itext,
+                                      unit=unit, period=[100, 'ms'], consts=[], mode=mode, N=b + 3, decl=decl, wall=30))
     # the bounds as SOLVER VARIABLES: every non-negative rational pair B <= E up to 4 sampling periods, every unit combination
     for op in (['once_t', 'eventually_t', 'since_t'] if quick else list(OPS)):
         for bu, eu in ([('', ''), ('ms', 's'), ('', 'ms'), ('us', '')] if quick else [(b_, e_) for b_ in ('', 's', 'ms', 'us') for e_ in ('', 's', 'ms', 'us')]):
